@@ -68,6 +68,25 @@ PROPS["C11"] = {"units": ["nav"], "kani": [], "replay": [], "title": "Code-map o
     "design_ref": "DESIGN.md §6.5"}
 PROPS["C20"]["units"] = ["nav"]
 
+# bounded stand-ins (replay crate) run for every claimed property: they cover what is outside the
+# verifier's reach and supply failing inputs for VIOLATION lines
+for _pid in list(PROPS):
+    PROPS[_pid]["replay"] = ["bounded"]
+_BOUNDED_NOTE = " Bounded stand-in (replay crate, real API vs an independent reference written from the RFCs/property text): labelled bounded, never counted as proved."
+for _pid in PROPS:
+    PROPS[_pid]["level_note"] += _BOUNDED_NOTE
+PROPS["C15"] = {"units": [], "kani": [], "replay": ["bounded"], "engine": "replay", "title": "Unordered equality", "level": "exploration",
+    "level_text": "BOUNDED ONLY: Object::unordered_eq is two nested all/any closure chains over custom iterators (no vstd spec, closures calling back into trait methods), outside Verus; Kani cannot take hashbrown-backed objects at useful sizes. All pairs of objects with <= 3 (thorough: 4) entries over 2 keys and 2 values, one nesting level, compared with the multiset definition.",
+    "level_note": "bounded exploration, not a proof; oracle = native multiset matching in replay/src/checks_object.rs",
+    "technique": "bounded exhaustive comparison with a reference definition (stand-in; no contract within reach)", "design_ref": "DESIGN.md §6.7"}
+PROPS["C09"] = {"units": ["object"], "kani": [], "replay": ["bounded"], "title": "Canonicalization conforms to RFC 8785", "level": "proof",
+    "level_text": "Proved: Object::sort re-establishes the index invariant and orders entries by the comparator it is given (permutation preserved). The UTF-16 member order and the ES6 number rendering are decided only by the bounded stand-in (keys separating UTF-16 from code-point order, the RFC 8785 number table).",
+    "level_note": "number clause = dependency behaviour (json-number/ryu-js), assumed; encode_utf16 comparator assumed; the recursive canonicalize_with is not under contract" + _BOUNDED_NOTE,
+    "design_ref": "DESIGN.md §6.4"}
+PROPS["C10"] = {"units": ["object"], "kani": [], "replay": ["bounded"], "title": "Canonical form is idempotent, blind to member order", "level": "proof",
+    "level_text": "Proved: after the index rebuild used by sort/canonicalization the object is well formed again (every key query answers as a linear scan would). Idempotence and blindness to member order, spacing and number spelling are decided by the bounded stand-in.",
+    "level_note": "as C09" + _BOUNDED_NOTE, "design_ref": "DESIGN.md §6.4"}
+
 NOT_APPLICABLE = {
     "C16": "serde Serializer/Deserializer plumbing: every deciding fact (derive expansion, number formatting, serde_json's shape) lives in dependencies whose behaviour would be assumed; no contract within reach decides it (DESIGN.md §7)",
     "C17": "same as C16: the deciding case analysis is inside json-number's Serialize/Deserialize; the in-repo ingredient (duplicate keys collapse through Object::insert) is covered by C06 (DESIGN.md §7)",
